@@ -37,22 +37,6 @@ Proof.
   intros Hg H0 H1. unfold load_txn. rewrite Hg, H0, H1. reflexivity.
 Qed.
 
-(* a failing start-up capture or a failing projection aborts as well *)
-Theorem load_txn_result c e s ls now cutoff :
-  match load_txn c e s ls now cutoff with
-  | Ok (e', T, lc) => T = e_last e + 1 /\ lc = (ls <? T - 1) /\ (e_last e' = e_last e \/ e_last e' = T)
-  | Err _ => True
-  | Panic | OutOfFuel => False
-  end.
-Proof.
-  unfold load_txn.
-  destruct (new_native_iterator (sn_fmt s) (sn_compat s) (e_last e + 1)) as [[]|x| |] eqn:Eg.
-  2:{ exact I. }
-  2,3: (unfold new_native_iterator in Eg; repeat match type of Eg with (if ?b then _ else _) = _ => destruct b end; discriminate).
-  set (T := e_last e + 1).
-  assert (NP : forall (A : Type) (r : res A), True) by auto.
-Abort.
-
 (* ---------- version gates ---------- *)
 
 Theorem version_gate c e s ls now cutoff :
